@@ -332,4 +332,39 @@ theorem guarded_index_reads_back :
     · intro hreg; have := hres.2 hreg; omega
 example : ∃ r ∈ limits, r.table ∉ acceptedGaps ∧ r.codec ≠ .notOperand := by decide +kernel
 
+/-! ## 6. a limit error is reported, whatever kind of function is being built -/
+
+/-- **every function builder that can raise a limit error has a position**: at every place where
+internal/compiler makes a `runtime.Function` (regenerated list: the calls of `newFunction` and
+`newMacro`, the `runtime.Function` literals), the function gets a position — a node's, or a
+literal `&ast.Position{}` for the synthetic `$initvars` — or nothing that can reach a limit check
+is done with its builder (the two-instruction function of `defer recover()`), or
+`newLimitExceededError` tests the position before reading it. -/
+theorem every_limit_raising_builder_has_position :
+    ∀ s ∈ builderSites, siteSafe limitErrorNilSafe limitRaising s = true := by decide +kernel
+
+/-- hence a limit check that fires in the builder of any of these functions produces the limit
+error, not a nil pointer dereference of the host -/
+theorem limit_check_never_panics :
+    ∀ s ∈ builderSites, canRaise limitRaising s = true →
+      raiseLimit limitErrorNilSafe (hasPos s.pos) = .buildError := by
+  intro s hs hc
+  have h := every_limit_raising_builder_has_position s hs
+  simp only [siteSafe, hc, Bool.not_true, Bool.or_false, Bool.or_eq_true] at h
+  unfold raiseLimit
+  cases h with
+  | inl h => simp [h]
+  | inr h => simp [h]
+
+/-- the model of `newLimitExceededError`: without a position (and without a nil test) it panics -/
+theorem raiseLimit_without_position : raiseLimit false false = .hostPanic := by decide
+
+-- non-vacuity: sites whose builder can raise a limit exist, among them a synthetic function with a
+-- literal position; a site without a position exists and is accepted only for what it emits; the
+-- register and table guards are among the raising functions, `end` too
+example : ∃ s ∈ builderSites, canRaise limitRaising s = true ∧ s.pos = .emptyLit := by decide +kernel
+example : ∃ s ∈ builderSites, hasPos s.pos = false ∧ canRaise limitRaising s = false ∧ s.emits ≠ [] := by decide +kernel
+example : "newRegister" ∈ limitRaising ∧ "makeStringValue" ∈ limitRaising ∧ "end" ∈ limitRaising ∧ "emitReturn" ∉ limitRaising := by decide +kernel
+example : siteSafe false limitRaising { site := "x", how := "newFunction", pos := .nilLit, posSrc := "nil", openBody := true, emits := [] } = false := by decide +kernel
+
 end ScriggoV.Limits
